@@ -102,7 +102,10 @@ TZ_SETTINGS = [None, "EST5EDT,M3.2.0,M11.1.0", "CET-1CEST,M3.5.0,M10.5.0/3",
                ":Zone/F1", "Zone/F2"]
 
 OFF_NAMES = ["A", "B", None]
-OFFSETS = [0, 3600, -18000, 19800, 1, -86399, 1172.5, -0.000001]
+# (1172 / 1172.5 / 1173 and 0 / -0.000001 / -1: offsets that differ by less
+# than a second are different keys)
+OFFSETS = [0, 3600, -18000, 19800, 1, -86399, 1172.5, -0.000001, 1172, 1173,
+           -1]
 
 
 def zone_number(name):
@@ -203,9 +206,12 @@ def gen_names(rng, small):
                 rng.choice(FILE2_NAMES + [DUP_NAME, SPACE_NAME]),
                 rng.choice(ARCH_NAMES), rng.choice(POSIX),
                 rng.choice(OTHER)]
+        if rng.random() < 0.4:
+            # the same file under its ':name' spelling: a key of its own
+            pool.append(":" + pool[0])
         return pool
     return FILE_NAMES + FILE2_NAMES + [DUP_NAME, SPACE_NAME] + ARCH_NAMES + \
-        POSIX + OTHER
+        POSIX + OTHER + [":" + n for n in FILE_NAMES[:3]]
 
 
 def gen_strategy(rng):
